@@ -554,8 +554,10 @@ def judge_pair(site: PertSite, col: common.Collector) -> None:
         w2, d2 = judge_perturbation(a, col, skip=sorted(done))
         want |= w2
         done |= d2
+    for g in sorted(done):
+        col.notes.setdefault("_judged_groups", []).append(f"{p[2]}.{p[3]} ({g})")
     for g in sorted(want - done):
-        col.count("perturbations_infeasible")
+        col.count("sites_where_a_value_domain_was_infeasible")
         col.notes.setdefault("infeasible", []).append(f"{p[2]}.{p[3]} ({g})")
 
 
@@ -755,7 +757,9 @@ def run(tier: str, col: common.Collector) -> None:
     lap("entry_points")
     common.pmap(task_perturb, tasks, col, timeout=900 if tier == "thorough" else 240)
     lap("perturbations")
-    col.notes["infeasible"] = sorted(set(col.notes.get("infeasible", [])))
+    judged_groups = set(col.notes.pop("_judged_groups", []))
+    # value domains that could not be exercised at ANY chosen site of the (class, field) pair
+    col.notes["infeasible"] = sorted(set(col.notes.get("infeasible", [])) - judged_groups)
     if not col.counters.get("preserved"):
         col.fail_inconclusive("no perturbation was ever preserved: the perturbation oracle is "
                               "not reaching the writer")
